@@ -338,9 +338,18 @@ Lemma sim_get_events : forall c b limit st en,
 Proof.
   intros c b limit st en. unfold gen_mem_get_events, mem_get_events. norm. rewrite aget_snd.
   destruct (aget b c) as [[m es]|] eqn:H; norm; [|reflexivity].
+  (* any formulation of the two limit tests that agrees with `== 0` / `< 0` on integers is accepted *)
   destruct st as [ws|], en as [we|]; norm; cbn [opt_filter];
-    destruct (limit =? 0); try reflexivity; destruct (limit <? 0) eqn:E; norm; cbn [py_take];
-    rewrite ?E; reflexivity.
+    destruct (Z.eqb_spec limit 0) as [E0|E0]; try reflexivity;
+    destruct (Z.ltb_spec limit 0) as [E|E]; norm;
+    repeat match goal with
+           | |- context [?a <? ?b] => destruct (Z.ltb_spec a b); try lia
+           | |- context [?a <=? ?b] => destruct (Z.leb_spec a b); try lia
+           | |- context [?a =? ?b] => destruct (Z.eqb_spec a b); try lia
+           end; norm; cbn [py_take];
+    repeat match goal with
+           | |- context [?a <? ?b] => destruct (Z.ltb_spec a b); try lia
+           end; reflexivity.
 Qed.
 
 Lemma sim_get_eventcount : forall c b st en,
